@@ -157,6 +157,7 @@ private:
   bool _fully_specified_known;
   bool _is_fully_specified_recursive_protect;
   bool _subst_decl_recursive_protect;
+  bool _using_search_protect;
 };
 
 inline std::ostream &
